@@ -209,8 +209,18 @@ def _ending(name):
                              "raise Nothing()"], 3, "Nothing", dict(exc=True)),
         # exactly the base class (a tracer / handler that singles out the BASES of some special class)
         "plain-exception": (["raise Exception('plain')"], 0, "Exception", dict(exc=True)),
+        # never ends by itself: the execution is started threaded with a small allowed_time and is GIVEN UP ON
+        # (sandboxexec_where.timeout_histories; not part of the termination sweep / the random stream)
+        "timeout": (["print('spinning')", "while True:", "    pass"], 1, "TimeoutError", dict(exc=True)),
+        # the same, and the abandoned code swallows the SystemExit it is ended with and runs off its end
+        "timeout-survivor": (["try:", "    while True:", "        pass", "except BaseException:",
+                              "    survived = True"], 1, "TimeoutError", dict(exc=True)),
     }
     return table[name]
+
+
+TIMEOUT_ENDINGS = ("timeout", "timeout-survivor")
+TIMEOUT_ALLOWED = 0.2       # seconds given to an execution that is meant to time out
 
 
 CONTAINED_ENDINGS = ["exception", "user-exception", "keyerror", "systemexit", "raise-systemexit", "blocked-exit",
@@ -311,6 +321,8 @@ def _op_of(spec, style_default=None):
     for key in ("swallow", "threaded"):
         if spec.get(key):
             op[key] = spec[key]
+    if spec.get("ending") in TIMEOUT_ENDINGS:
+        op["timeout"] = TIMEOUT_ALLOWED
     if spec.get("inner"):
         op["via"] = spec["via"]
         op["hid"] = spec["hid"]
